@@ -42,9 +42,11 @@ class Universe:
         rnd = random.Random(seed)
         self.long = long
         if long:
-            # a chain of 70 blocks: heights from 64 on are written with two octets (0x80 0x40 ...), so that shorter and longer
+            # a chain of about 80 blocks: heights from 64 on are written with two octets (0x80 0x40 ...), so that shorter and longer
             # spellings of the same number exist for the block height
-            case = chainexec.gen_case(rnd, chainexec.CFGS[3], 70, 0.0, ["C01"], p_fork=0.04, p_tx=0.15, dts=[120, 10, 2])
+            # (short retarget period and slow blocks: the target saturates, so a copy of a block under other header bytes is not
+            # stopped by the proof-of-work test alone -- what has to stop it is the decoder)
+            case = chainexec.gen_case(rnd, chainexec.CFGS[0], 82, 0.0, ["C01"], p_fork=0.02, p_tx=0.15, dts=[1_000_000, 1_000_000, 10_000])
         else:
             case = chainexec.gen_case(rnd, chainexec.CFGS[3], 9, 0.0, ["C01"], p_fork=0.35, p_tx=0.8, dts=[120, 10, 2])
         self.run = chainexec.Run(case, ("C20",))
@@ -122,6 +124,11 @@ class Universe:
             self.store = BS.BlockStore(path)
         self.store.write_blocks_to_disk([self.b.to_sk_block(x) for x in self.known[1:]])
         BS.DefaultBlockStore.instance = self.store
+
+    def known_raws(self):
+        if not hasattr(self, "_known_raws"):
+            self._known_raws = {x.raw() for x in self.known}
+        return self._known_raws
 
     def store_digest(self):
         rows = []
@@ -378,6 +385,10 @@ def one_case(u, rnd, res, M, record=None, force=None):
         for i in new:
             blk = u.b.from_sk_block(node.cm.coinstate.block_by_hash[i])
             v = [c for c in _structural(u, blk)]
+            if not v and blk.raw() in u.known_raws() and i != blk.id():
+                # the SAME block as one the node already stores (field for field), taken a second time under another id because
+                # its bytes were spelt differently: a non-canonical encoding is malformed input
+                v = ["S:second-spelling-of-a-stored-block"]
             if v:
                 malformed.append(v[0])
         if malformed or not new:
